@@ -7,6 +7,7 @@ import (
 	"hash/fnv"
 	"net/http"
 	"net/url"
+	"runtime"
 	"strconv"
 	"strings"
 	"sync"
@@ -213,7 +214,58 @@ func famConc(o *Out, r R, tier string) {
 // Every response must be the response of ONE state of the cycle (a response mixing the configuration of one
 // instant with the debug mode of another - (P,off) or (S,on) - belongs to none), every Config() a normal form
 // of P, Q, S or nil.
+// gcHistory: sequential histories with garbage collections between the steps. Anything keyed on the identity of a
+// retired configuration (an address kept as an integer, a finalizer, a weak reference) can only go wrong after the
+// collector has run and the address has been reused; no concurrency is involved.
+func gcHistory(o *Out, tier string) {
+	rounds := 40
+	if tier == "thorough" {
+		rounds = 400
+	}
+	mk := func(k int) cors.Config {
+		return cors.Config{Origins: []string{"https://h" + strconv.Itoa(k) + ".example"}, Methods: []string{"PUT"}, RequestHeaders: []string{"X-K" + strconv.Itoa(k)},
+			MaxAgeInSeconds: 100 + k, ResponseHeaders: []string{"X-R" + strconv.Itoa(k)}}
+	}
+	want := func(c cors.Config) string {
+		f, _ := cors.NewMiddleware(cloneCfg(c))
+		return str(cfgSX(f.Config()))
+	}
+	m, _ := cors.NewMiddleware(mk(0))
+	bad := ""
+	for i := 0; i < rounds && bad == ""; i++ {
+		a, b := mk(2*i+1), mk(2*i+2)
+		_ = m.Config()
+		if err := m.Reconfigure(&a); err != nil {
+			bad = "Reconfigure failed: " + err.Error()
+			break
+		}
+		if i%2 == 0 {
+			_ = m.Config()
+		}
+		runtime.GC()
+		if err := m.Reconfigure(&b); err != nil {
+			bad = "Reconfigure failed: " + err.Error()
+			break
+		}
+		runtime.GC()
+		if got, w := str(cfgSX(m.Config())), want(b); got != w {
+			bad = "after Config(); Reconfigure(A); GC; Reconfigure(B); GC the middleware's Config() is not B's normal form (round " + strconv.Itoa(i) + "): " + truncate(got)
+			break
+		}
+		if err := m.Reconfigure(m.Config()); err != nil {
+			bad = "Reconfigure(Config()) failed: " + err.Error()
+			break
+		}
+		out := serveOnce(m, reqT{method: "GET", hdrs: http.Header{"Origin": {b.Origins[0]}}}, http.Header{})
+		if v := out.hdrs["Access-Control-Allow-Origin"]; len(v) != 1 || v[0] != b.Origins[0] {
+			bad = "after the same history and Reconfigure(Config()) the current origin is no longer allowed (round " + strconv.Itoa(i) + ")"
+		}
+	}
+	o.emitDirect("stress/gc-history", bad == "", strconv.Itoa(rounds)+" rounds of Config; Reconfigure; GC; Reconfigure; GC; Config; Reconfigure(Config()) "+bad)
+}
+
 func famStress(o *Out, r R, tier string) {
+	gcHistory(o, tier)
 	dur := 900 * time.Millisecond
 	if tier == "thorough" {
 		dur = 10 * time.Second
@@ -797,6 +849,40 @@ func famPanic(o *Out, r R, tier string) {
 			}
 		}
 	}
+	// long configured names and methods (63..130 bytes) x requested methods / header elements of every length up to
+	// beyond the longest (length-indexed tables, fixed buffers), in both debug modes
+	for _, longest := range []int{63, 64, 65, 100, 128, 130} {
+		longest := longest
+		lm, err := cors.NewMiddleware(cors.Config{Origins: []string{"https://example.com"},
+			Methods:        []string{"PUT", "M" + strings.Repeat("E", longest-1)},
+			RequestHeaders: []string{"x-a", "x-" + strings.Repeat("c", longest-2)}, ResponseHeaders: []string{"x-" + strings.Repeat("r", longest-2)}})
+		if err != nil {
+			guard("panic/long-names", "configuration with "+strconv.Itoa(longest)+"-byte names rejected", func() { panic(err.Error()) })
+			continue
+		}
+		for _, dbg := range []bool{false, true} {
+			lm.SetDebug(dbg)
+			for l := 1; l <= longest+3; l++ {
+				for _, q := range []reqT{
+					{method: "OPTIONS", hdrs: http.Header{"Origin": {"https://example.com"}, "Access-Control-Request-Method": {"PUT"}, "Access-Control-Request-Headers": {strings.Repeat("q", l)}}},
+					{method: "OPTIONS", hdrs: http.Header{"Origin": {"https://example.com"}, "Access-Control-Request-Method": {"PUT"}, "Access-Control-Request-Headers": {"x-" + strings.Repeat("c", l)}}},
+					{method: "OPTIONS", hdrs: http.Header{"Origin": {"https://example.com"}, "Access-Control-Request-Method": {strings.Repeat("Q", l)}}},
+					{method: "OPTIONS", hdrs: http.Header{"Origin": {"https://example.com"}, "Access-Control-Request-Method": {"M" + strings.Repeat("E", l)}}}} {
+					q := q
+					guard("panic/long-names", "ServeHTTP (names up to "+strconv.Itoa(longest)+" bytes) on "+truncate(str(q.sx())), func() {
+						if out := serveOnce(lm, q, http.Header{}); out.panicked {
+							panic("handler panicked")
+						}
+					})
+				}
+			}
+		}
+		guard("panic/long-names", "Config/Reconfigure(Config()) with "+strconv.Itoa(longest)+"-byte names", func() {
+			if err := lm.Reconfigure(lm.Config()); err != nil {
+				panic(err.Error())
+			}
+		})
+	}
 	// extreme tree shapes: construction, rendering (Config), re-validation, and every probe as an actual request
 	for _, e := range extremeTrees(tier) {
 		e := e
@@ -1102,6 +1188,80 @@ func famAlloc(o *Out, r R, tier string) {
 				}
 				ok := worst <= base+1 && worst <= K
 				o.emitDirect("alloc/"+kind, ok, fmt.Sprintf("%s debug=%v: %v allocations at size 1, at most %v (at size %d) up to size %d", name, debug, base, worst, at, sizes[len(sizes)-1]))
+			}
+		}
+	}
+	// (a) large allow-lists: every element of a long list is looked up at a high rank (a per-element cost that only
+	//     shows beyond a threshold -- e.g. boxing an index >= 256 into an interface -- is a per-element allocation)
+	for _, nNames := range []int{300, 2000} {
+		var names []string
+		for k := 0; k < nNames; k++ {
+			names = append(names, "x-h"+strconv.Itoa(100000 + k)[1:])
+		}
+		m, err := cors.NewMiddleware(cors.Config{Origins: []string{"https://example.com"}, RequestHeaders: names, Methods: []string{"PUT"}})
+		if err != nil {
+			o.emitDirect("alloc/large-allow-list", false, "configuration with "+strconv.Itoa(nNames)+" request-header names rejected: "+err.Error())
+			continue
+		}
+		base := -1.0
+		for _, take := range []int{3, 100, nNames} {
+			for _, from := range []string{"first", "last"} {
+				sub := names[:take]
+				if from == "last" {
+					sub = names[nNames-take:]
+				}
+				q := reqT{method: "OPTIONS", hdrs: http.Header{"Origin": {"https://example.com"}, "Access-Control-Request-Method": {"PUT"},
+					"Access-Control-Request-Headers": {strings.Join(sub, ",")}}}
+				if out := serveOnce(m, q, http.Header{}); out.status == 403 {
+					o.emitDirect("alloc/large-allow-list", false, "a preflight naming "+strconv.Itoa(take)+" allowed names was refused")
+				}
+				a := allocsForPre(m, q, nil)
+				if base < 0 {
+					base = a
+				}
+				o.emitDirect("alloc/large-allow-list", a <= base+0.5 && a <= K, fmt.Sprintf("%d allowed names, ACRH lists the %s %d: %v allocations (first measurement %v)", nNames, from, take, a, base))
+			}
+		}
+	}
+	// (b) FRESH requests: a per-line cost that rewrites the request in place (and is therefore paid once per request
+	//     object) is invisible when one request is measured repeatedly; here every run gets its own request from a pool
+	//     built outside the measurement. Lines carry every kind of byte (CR and LF included).
+	for ci, c := range []cors.Config{
+		{Origins: []string{"https://example.com"}, Credentialed: true, RequestHeaders: []string{"*"}, Methods: []string{"PUT"}},
+		{Origins: []string{"https://example.com"}, RequestHeaders: []string{"x-foo", "x-bar"}, Methods: []string{"PUT"}},
+		{Origins: []string{"*"}, RequestHeaders: []string{"*"}, Methods: []string{"*"}}} {
+		for _, dbg := range []bool{false, true} {
+			m := newMW(&c, dbg)
+			if m == nil {
+				continue
+			}
+			h := m.Wrap(http.HandlerFunc(func(http.ResponseWriter, *http.Request) {}))
+			for _, sample := range [][]int{{'\r', '\n'}, {0, 1, 9, 11, 12, 32, 34, 44, 58, 127, 128, 255}} {
+				base := -1.0
+				for _, nLines := range []int{1, 10, 200} {
+					const runs = 12
+					pool := make([]*http.Request, runs+1)
+					for i := range pool {
+						lines := make([]string, nLines)
+						for k := range lines {
+							ch := string([]byte{byte(sample[k%len(sample)])})
+							lines[k] = "x-foo," + ch + " x-bar" + ch
+						}
+						pool[i] = &http.Request{Method: "OPTIONS", URL: &url.URL{Path: "/"}, Proto: "HTTP/1.1", Header: http.Header{"Origin": {"https://example.com"},
+							"Access-Control-Request-Method": {"PUT"}, "Access-Control-Request-Headers": lines}}
+					}
+					w := &reuseW{h: make(http.Header, 8)}
+					next := 0
+					a := testing.AllocsPerRun(runs, func() {
+						clear(w.h)
+						h.ServeHTTP(w, pool[next%len(pool)])
+						next++
+					})
+					if base < 0 {
+						base = a
+					}
+					o.emitDirect("alloc/fresh-requests", a <= base+0.5 && a <= K, fmt.Sprintf("config %d debug=%v, %d ACRH lines with bytes %v, a fresh request per run: %v allocations (one line: %v)", ci, dbg, nLines, sample, a, base))
+				}
 			}
 		}
 	}
